@@ -751,24 +751,30 @@ fn archive_and_cli_leg(rep: &mut Report) {
             }
         }
     }
-    // (b) CLI wiring of the retry budget
+    // (b) CLI wiring of the retry budget, alone and next to the other transfer options
     for budget in 0..=3u32 {
         for nfaults in 0..=4usize {
             for fault in [HF::CutAfter(3), HF::Refuse] {
-                let mut script = vec![HF::None, HF::None];
-                script.extend(std::iter::repeat(fault.clone()).take(nfaults));
-                lab.server.arm(&arch.bytes, Script { faults: script, splits: vec![], keep_alive: false });
-                let _ = std::fs::remove_file(&out);
-                let args = crate::c04::cli_clone_args(&lab.server.url(), &out, &["--http-retry-count".to_string(), budget.to_string(), "--http-retry-delay".to_string(), "0".to_string()]);
-                let r = crate::c04::cli_clone(&lab.rt, args);
-                agg.add("cli_retry_cases", 1);
-                let want_ok = nfaults as u32 <= budget;
-                let got_ok = matches!(r, Ok(Ok(())));
-                let detail = || json!({"leg": "cli-retry", "fault": format!("{:?}", fault), "faults": nfaults, "retries": budget, "result": format!("{:?}", r), "requests": lab.server.log().iter().map(|l| l.range).collect::<Vec<_>>()});
-                if got_ok != want_ok {
-                    agg.viol(if got_ok { "http:clone-succeeded-beyond-retry-budget" } else { "http:clone-failed-within-retry-budget" }, detail);
-                } else if got_ok && std::fs::read(&out).unwrap_or_default() != source {
-                    agg.viol("http:wrong-bytes-delivered", detail);
+                for with_opts in [false, true] {
+                    let mut script = vec![HF::None, HF::None];
+                    script.extend(std::iter::repeat(fault.clone()).take(nfaults));
+                    lab.server.arm(&arch.bytes, Script { faults: script, splits: vec![], keep_alive: false });
+                    let _ = std::fs::remove_file(&out);
+                    let mut xargs = vec!["--http-retry-count".to_string(), budget.to_string(), "--http-retry-delay".to_string(), "0".to_string()];
+                    if with_opts {
+                        xargs.extend(["--http-timeout".to_string(), "20".to_string(), "--http-header".to_string(), "X-Verif: 1".to_string()]);
+                    }
+                    let args = crate::c04::cli_clone_args(&lab.server.url(), &out, &xargs);
+                    let r = crate::c04::cli_clone(&lab.rt, args);
+                    agg.add("cli_retry_cases", 1);
+                    let want_ok = nfaults as u32 <= budget;
+                    let got_ok = matches!(r, Ok(Ok(())));
+                    let detail = || json!({"leg": "cli-retry", "fault": format!("{:?}", fault), "faults": nfaults, "retries": budget, "with_http_timeout_and_header": with_opts, "result": format!("{:?}", r), "requests": lab.server.log().iter().map(|l| l.range).collect::<Vec<_>>()});
+                    if got_ok != want_ok {
+                        agg.viol(if got_ok { "http:clone-succeeded-beyond-retry-budget" } else { "http:clone-failed-within-retry-budget" }, detail);
+                    } else if got_ok && std::fs::read(&out).unwrap_or_default() != source {
+                        agg.viol("http:wrong-bytes-delivered", detail);
+                    }
                 }
             }
         }
@@ -937,8 +943,21 @@ fn chunk_stream_leg(rep: &mut Report) {
         let lab = HttpLab::new();
         lab.pooled.set(true);
         let nd = arch.descs.len();
-        for mask in 0..(1usize << nd) {
-            lab.server.arm(&arch.bytes, Script { faults: vec![], splits: vec![], keep_alive: true });
+        // the same archive with 100 bytes of slack between header and chunk data (header re-encoded by the
+        // independent encoder with the chunk data offset field moved): every subset again
+        let dec = crate::codec::decode(&arch.bytes).unwrap_or_else(|e| machinery(e));
+        let mut enc = crate::codec::EncOpts::default();
+        let h2len = crate::codec::encode_header(&dec.dict, &enc).len();
+        enc.chunk_data_offset = Some((h2len + 100) as u64);
+        let mut slack_bytes = crate::codec::encode_header(&dec.dict, &enc);
+        slack_bytes.extend(std::iter::repeat(0xEEu8).take(100));
+        slack_bytes.extend_from_slice(&arch.bytes[dec.chunk_data_offset as usize..]);
+        let slack_descs: Vec<(u64, usize)> = dec.dict.chunk_descriptors.iter().map(|d| ((h2len + 100) as u64 + d.archive_offset, d.archive_size as usize)).collect();
+        for mask in 0..(2usize << nd) {
+            let with_slack = mask >> nd & 1 == 1;
+            let mask = mask & ((1usize << nd) - 1);
+            let (abytes, adescs): (&Vec<u8>, Vec<(u64, usize)>) = if with_slack { (&slack_bytes, slack_descs.clone()) } else { (&arch.bytes, arch.descs.iter().map(|d| (d.0, d.1)).collect()) };
+            lab.server.arm(abytes, Script { faults: vec![], splits: vec![], keep_alive: true });
             let reader = lab.reader(0);
             let r = catch(|| {
                 lab.rt.block_on(async {
@@ -964,10 +983,10 @@ fn chunk_stream_leg(rep: &mut Report) {
                 })
             });
             agg.add("chunk_stream_subsets", 1);
-            let want_ranges: Vec<(u64, usize)> = arch.descs.iter().enumerate().filter(|(i, _)| mask >> i & 1 == 1).map(|(_, d)| (d.0, d.1)).collect();
+            let want_ranges: Vec<(u64, usize)> = adescs.iter().enumerate().filter(|(i, _)| mask >> i & 1 == 1).map(|(_, d)| (d.0, d.1)).collect();
             let want: Vec<Option<(u64, u64)>> = runs_of(&want_ranges).iter().map(|r| Some((r.0, r.1 - 1))).collect();
             let got: Vec<Option<(u64, u64)>> = lab.server.log().iter().skip(2).map(|l| l.range).collect();
-            let detail = || json!({"leg": "chunk-stream", "source_words": seqs_ref[si], "subset_mask": mask, "requests": got, "expected": want, "result": format!("{:?}", r)});
+            let detail = || json!({"leg": "chunk-stream", "source_words": seqs_ref[si], "subset_mask": mask, "slack_between_header_and_chunk_data": if with_slack { 100 } else { 0 }, "requests": got, "expected": want, "result": format!("{:?}", r)});
             match &r {
                 Ok(Ok(nitems)) => {
                     if got != want {
